@@ -1797,3 +1797,15 @@ m("C06", "refactor-switch-names", ZP,
   "        self._switches.pop()\n        self._interpolation.pop()\n",
   "        self._interpolation.pop()\n        self._switches.pop()\n",
   expect="silent")
+
+# ---- later additions ---------------------------------------------------------
+m("C13", "handler-indexes-unset-token", C,
+  '''            "econtext[key] = cls(__exc, __tokens[__token][1:3] "
+            "if __token is not None else (None, None))\\n"''',
+  '''            "econtext[key] = cls(__exc, __tokens[__token][1:3])\\n"''')
+m("C13", "fallback-reuses-filtered-attributes", ZP,
+  '''                        [nodes.Attribute(
+                            attr.name, attr.expression, attr.quote,
+                            attr.eq, attr.space, attr.default, [])
+                         for attr in attributes if''',
+  '''                        [attr for attr in attributes if''')
